@@ -96,7 +96,8 @@ func runC28(c *Ctx) {
 				if lit, ok := unparen(r.Args[4]).(*ast.FuncLit); ok && len(lit.Body.List) == 1 {
 					if ret, ok := lit.Body.List[0].(*ast.ReturnStmt); ok && len(ret.Results) == 1 {
 						lf := &Fn{Pkg: fn.Pkg, Lit: lit, Name: "Delete$keep"}
-						x := newE9(p, lf, func(ex ast.Expr, text string) string {
+						x := newE9(p, lf, func(ex ast.Expr, text string) string { return "" })
+						x.AtomCmp = func(ex ast.Expr, text string) string {
 							b, ok := unparen(ex).(*ast.BinaryExpr)
 							if !ok || b.Op.String() != "==" {
 								return ""
@@ -116,7 +117,7 @@ func runC28(c *Ctx) {
 								}
 							}
 							return ""
-						})
+						}
 						_, cx, err := e9Table([]string{"isMeta", "isMark"}, []int64{0, 1}, func(env map[string]int64) bool { return env["isMeta"]+env["isMark"] < 2 },
 							func(env map[string]int64) (int64, error) { v, err := x.eval(ret.Results[0], env); return b2i(v.b), err },
 							func(env map[string]int64) int64 { return b2i(env["isMeta"] == 1 || env["isMark"] == 1) })
